@@ -38,8 +38,11 @@
 //!
 //! Keys: `C03:<field class>:<verdict>` for field-level findings (field class = variant +
 //! field name, e.g. `Input::MessageCoinPredicate.predicateGasUsed`; verdict in
-//! {not-zeroed-in-id, wrongly-zeroed-in-id, malleable-byte-changes-id,
-//! witness-byte-changes-id, non-malleable-byte-keeps-id}) and `C03:<tx kind>:<class>` with
+//! {malleable-field-affects-id, committed-field-does-not-affect-id,
+//! witness-byte-affects-id} — the same key whether the formula (1) or the sweep (2)
+//! exposes it: when the formula fails, every single field class and every pair of field
+//! classes is tried with its malleability toggled to name the culprit) and
+//! `C03:<tx kind>:<class>` with
 //! class in {id-formula, witnesses-not-removed, chain-id-ignored, cached-id,
 //! id-after-precompute, precompute-not-idempotent, cached-id-after-re-precompute,
 //! encoding, panic}.
@@ -155,28 +158,46 @@ fn get_id(tx: &Transaction, chain: u64) -> Result<[u8; 32], String> {
     guard::catch_any(|| *tx.id(&ChainId::new(chain)))
 }
 
+const V_MALLEABLE: &str = "malleable-field-affects-id";
+const V_COMMITTED: &str = "committed-field-does-not-affect-id";
+
 /// Which deviation from the statement's zeroing list explains a wrong id? (diagnosis only:
-/// chooses the KEY; the verdict was already reached by comparing with the formula)
-fn diagnose(layout: &Layout, chain: u64, got: &[u8; 32], kind: &str) -> (String, String) {
-    let classes: BTreeSet<(&str, bool)> = layout
+/// chooses the KEYS; the verdict was already reached by comparing with the formula.)
+/// Tries every single field class, then every pair of field classes, with its
+/// malleability toggled. Returns (key, explanation) per explaining class.
+fn diagnose(layout: &Layout, chain: u64, got: &[u8; 32], kind: &str) -> Vec<(String, String)> {
+    let classes: Vec<(&str, bool)> = layout
         .fields
         .iter()
         .filter(|f| !f.in_witnesses)
         .map(|f| (f.class_path.as_str(), f.malleable))
+        .collect::<BTreeSet<_>>()
+        .into_iter()
         .collect();
+    let verdict = |cp: &str, malleable: bool| {
+        if malleable {
+            (
+                format!("C03:{cp}:{V_MALLEABLE}"),
+                format!("the id is the hash of the encoding in which the malleable field {cp} is NOT zeroed"),
+            )
+        } else {
+            (
+                format!("C03:{cp}:{V_COMMITTED}"),
+                format!("the id is the hash of the encoding in which the non-malleable field {cp} is zeroed as well"),
+            )
+        }
+    };
     for (cp, malleable) in &classes {
         let over = |f: &Field| (f.class_path == *cp).then_some(!f.malleable);
         if &want_id(chain, &layout.signing_bytes_with(&over)) == got {
-            return if *malleable {
-                (
-                    format!("C03:{cp}:not-zeroed-in-id"),
-                    format!("the id is the hash of the encoding in which the malleable field {cp} is NOT zeroed"),
-                )
-            } else {
-                (
-                    format!("C03:{cp}:wrongly-zeroed-in-id"),
-                    format!("the id is the hash of the encoding in which the non-malleable field {cp} is zeroed as well"),
-                )
+            return vec![verdict(cp, *malleable)]
+        }
+    }
+    for (a, (cpa, ma)) in classes.iter().enumerate() {
+        for (cpb, mb) in classes.iter().skip(a + 1) {
+            let over = |f: &Field| (f.class_path == *cpa || f.class_path == *cpb).then_some(!f.malleable);
+            if &want_id(chain, &layout.signing_bytes_with(&over)) == got {
+                return vec![verdict(cpa, *ma), verdict(cpb, *mb)]
             }
         }
     }
@@ -190,15 +211,15 @@ fn diagnose(layout: &Layout, chain: u64, got: &[u8; 32], kind: &str) -> (String,
         }
     }
     if &want_id(chain, &with_wit) == got {
-        return (
+        return vec![(
             format!("C03:{kind}:witnesses-not-removed"),
             "the id is the hash of the zeroed encoding WITH the witnesses".into(),
-        )
+        )]
     }
-    (
+    vec![(
         format!("C03:{kind}:id-formula"),
-        "the id differs from the hash of the zeroed, witness-free encoding (no single field class explains it)".into(),
-    )
+        "the id differs from the hash of the zeroed, witness-free encoding (no one or two field classes explain it)".into(),
+    )]
 }
 
 fn metadata_eq(a: &Transaction, b: &Transaction) -> bool {
@@ -272,16 +293,17 @@ fn check_value(tx: &Transaction, descr: &str, case: &Value, sweep_chains: &[usiz
         } else {
             formula_ok = false;
             acc.outcome("VIOLATION_id_formula");
-            let (key, why) = diagnose(&layout, *chain, &got, kind);
-            acc.viol(
-                key,
-                &|| format!(
-                    "id(chain {chain}) = {} but SHA-256(chain ‖ zeroed encoding without witnesses) = {}: {why}; {descr}",
-                    h(&got),
-                    h(&want)
-                ),
-                case,
-            );
+            for (key, why) in diagnose(&layout, *chain, &got, kind) {
+                acc.viol(
+                    key,
+                    &|| format!(
+                        "id(chain {chain}) = {} but SHA-256(chain ‖ zeroed encoding without witnesses) = {}: {why}; {descr}",
+                        h(&got),
+                        h(&want)
+                    ),
+                    case,
+                );
+            }
         }
     }
     if formula_ok {
@@ -428,11 +450,11 @@ fn check_value(tx: &Transaction, descr: &str, case: &Value, sweep_chains: &[usiz
                     all_changed &= !same;
                     if same != expect_same {
                         let (verdict, text) = if f.in_witnesses {
-                            ("witness-byte-changes-id", "lies inside the witnesses, but the id changed")
+                            ("witness-byte-affects-id", "lies inside the witnesses, but the id changed")
                         } else if f.malleable {
-                            ("malleable-byte-changes-id", "lies inside a malleable field, but the id changed")
+                            (V_MALLEABLE, "lies inside a malleable field, but the id changed")
                         } else {
-                            ("non-malleable-byte-keeps-id", "lies outside every malleable field and outside the witnesses, but the id did not change")
+                            (V_COMMITTED, "lies outside every malleable field and outside the witnesses, but the id did not change")
                         };
                         acc.outcome(&format!("VIOLATION_{verdict}"));
                         acc.viol(
